@@ -105,6 +105,11 @@ func (server *SugarDB) Flush(database int) {
 		return
 	}
 
+	// A database that was never created holds nothing to flush.
+	if _, ok := server.store[database]; !ok {
+		return
+	}
+
 	// Clear db store.
 	clear(server.store[database])
 	// Clear db volatile key tracker.
